@@ -82,6 +82,11 @@ def validate(traces: list[dict], timeout=1800):
 
 def check_events(chk: Check, name: str, events: list[dict], must_have=True):
     evs = [e for e in events if e.get("ev") == "aligned"]
+    for e in events:
+        if e.get("ev") == "driver_error":
+            chk.violation(f"ClpLinkTrace[{name}]: evaluation raises {e['error'].split(':')[0]} method={e['method']}",
+                          f"evaluating a linked scheme (axes x2 = {e['axes']}, tolerance x2 = {e['tol']}, datasets {e['labels']}) raised {e['error']}",
+                          {"engine": "c09-trace", "events": [e]})
     if must_have and not evs:
         raise MachineryError(f"C09 trace source {name}: no aligned events (hook not active?)")
     traces, skipped = [], {}
